@@ -1201,3 +1201,38 @@ class _Parse:
         "InternalError": lambda s: AND(OR(X.VISITOR_CRASHED, X.VISITOR_INTERNAL), EXC_LINE_KNOWN(s.exc)) if smt() else True,
         "InvalidDefinitionError": lambda s: EXC_LINE_KNOWN(s.exc),
     }
+
+
+# ------------------------------------------------------------------------------------------------ Set attributes
+def CARD(q):
+    """number of members of a Set"""
+    if smt():
+        return z3.ToReal(X.REFCARD(AS(q, SET_X)._value.term))
+    return fractions.Fraction(len(q._value))
+
+
+def MEMBER_OF(x, q):
+    if smt():
+        return _members(q)(x.ref)
+    return x in q._value
+
+
+def _name_is(s, *names):
+    return OR(*[EQ(sv(s.name), n) for n in names])
+
+
+@contract(SET_X + "._attribute", props=P)
+class _SetAttribute:
+    """min / max select a member (defined for rationals; a singleton of any class is returned as it is, because the
+    comparison is never evaluated), count is the cardinality; anything else is an undefined attribute."""
+    params = dict(name=ObjOf(STRING_X))
+    returns = ObjOf(ANY)
+    raises = {"UndefinedAttributeError": lambda s: NOT(_name_is(s, "min", "max", "count"))}
+    raises_if = {"UndefinedOperatorError": lambda s: AND(_name_is(s, "min", "max"), NOT(ET_IS(s.self, RATIONAL_X)))}
+
+    def pre(s):
+        return {"domain": DOMAIN(s.self)}
+
+    def post(s):
+        return {"count": IMPLIES(_name_is(s, "count"), lambda: AND(is_rat(s.result), lambda: rv(s.result) == CARD(s.self))),
+                "min-max-select": IMPLIES(_name_is(s, "min", "max"), lambda: MEMBER_OF(s.result, s.self))}
